@@ -8,6 +8,16 @@ CHECKS = {
    note="Outside the bound: >4 events per history, >2 interacting columns, arbitrary unicode. Mixed-kind columns are compared by canonical text (the statement's consolidation tolerance); PQS disabled as a named tunable.",
    ref="DESIGN.md §4 C01"),
 }
+CHECKS["C15"] = dict(level="exploration", engine="seqx",
+   technique="bounded-exhaustive enumeration of all bulk bodies up to n action groups over a 12-kind line-group alphabet, executed on the real handler and compared with search results",
+   text="All bulk bodies of <=3 (quick) / <=4 (thorough) action groups over 12 kinds (valid index/create on two indexes, invalid/truncated documents, document at and just under the size limit, unknown action, delete, update, missing _index, index without document line) x trailing newline yes/no go through HandleBulkBody; after a flush a per-history marker search decides item-by-item: one item per action in order, created iff searchable exactly once, errors iff some item failed, well-formed neighbours unaffected.",
+   note="Store-level failure (1000 open segment stores) needs >24 GB address space and is not enumerated (DESIGN C15). For groups the statement does not classify only 'acknowledged iff stored' is asserted.",
+   ref="DESIGN.md §4 C15")
+CHECKS["C02"] = dict(level="exploration", engine="seqx",
+   technique="bounded-exhaustive enumeration of filter expressions (atoms, NOT, all ordered AND/OR/AND-NOT/NOR pairs, all time ranges) x datasets x layouts on the real engine; reference model + differential relations",
+   text="Every atom and every ordered pair of atoms in 4 boolean forms, each left atom under every time range with bounds on/next to event timestamps, over 4 datasets (mixed-type, ints, floats, strings; sparse columns) x 5 physical layouts x cardinality limits; oracles: three-valued reference model of the comparison rules the statement fixes, AND/OR = intersection/union of the observed operand results, NOT never overlaps its operand and is the complement where the comparison applies, search clause == where stage on numeric values, time-range restriction.",
+   note="The model takes no stance on string-vs-number coercion, bool literals, != on absent fields, substring-but-not-word free text, NOT over absent/other-typed values. 35 genuine wrong-answer classes on the pinned tree are recorded in known_findings.json keyed by (oracle, data condition); failures under plain conditions keep detailed fingerprints.",
+   ref="DESIGN.md §4 C02")
 NOT_YET = {}
 props = [json.loads(l) for l in open("properties.jsonl")]
 m = {"version": 1, "setup_cmd": "./vcheck setup",
